@@ -472,3 +472,195 @@ pub fn lane_real_chain(ctx: &mut Ctx) {
         }
     }
 }
+
+/// The canister's own header store (its validation context over stable headers, the unstable tree
+/// and pending announced headers) in front of the validator, at heights where the height matters.
+/// A regtest canister is started on a genesis with non-limit bits (so that the walk-back and the
+/// 2016-block boundary are distinguishable from "always minimum difficulty"), a chain is grown to
+/// just below a multiple of 2016 through `state::insert_block`, and then blocks and announced
+/// headers (on tree blocks and on top of other announced headers that are still pending) are
+/// offered across the boundary. Every accept/reject is compared with the reference rule on the
+/// true chain.
+pub fn lane_boundary(ctx: &mut Ctx) {
+    let max_cases = if ctx.tier == Tier::Quick { 4_000 } else { 400_000 };
+    for k in ctx.cases("boundary", max_cases) {
+        if !ctx.time_left() {
+            break;
+        }
+        ctx.begin("boundary", k);
+        let mut rng = Rng::derive(&[ctx.seed, fp_str("boundary"), k]);
+        let net = Network::Regtest;
+        let base_bits: u32 = *rng.pick(&[0x207ffffeu32, 0x207ffffe, 0x207ffff0, 0x2000ffff]);
+        let limit = limit_bits(net);
+        let now = world::MOCK_NOW_SECS;
+        let t0 = (now - 2016 * 600 * 3) as u32;
+        let mut g = gen::genesis(net);
+        g.header.bits = CompactTarget::from_consensus(base_bits);
+        g.header.time = t0;
+        g.header.nonce = 0;
+        gen::mine_header(&mut g.header);
+        world::reset_with_genesis(&world::WorldCfg::new(net, 2), &g, 1);
+        // (time, bits) by height of the chain the next candidate extends (tree + pending headers)
+        let mut rows: Vec<(u32, u32)> = vec![(t0, base_bits)];
+        let mut tip_hash = gen::hash_of(&g);
+        let stop: u32 = 2016 - 1 - rng.range(0, 7) as u32; // height of the last block delivered in bulk
+        let mut uniq = k.wrapping_mul(1_000_003);
+        let mut ok = true;
+        // bulk phase: valid blocks, a few long gaps (minimum-difficulty blocks) near the end
+        for h in 1..=stop {
+            let (ptime, _) = rows[rows.len() - 1];
+            let long_gap = h + 60 > stop && rng.chance(1, 6);
+            let time = ptime + if long_gap { 1201 + rng.range(0, 600) as u32 } else { rng.range(1, 1200) as u32 };
+            let bits = refhdr::next_work_required(net, &Hist2 { lo: 0, rows: &rows }, time);
+            uniq += 1;
+            let cb = gen::coinbase_tx(h, uniq, vec![(50, vec![0x51])]);
+            let b = gen::make_block_bits(bits, tip_hash, time, vec![cb], true);
+            match world::insert_block(&b, None) {
+                world::Out::Ok(Ok(())) => {}
+                other => {
+                    ctx.violation(
+                        format!("a block that satisfies every header rule was refused at height {} of a regtest chain with base bits {:08x}: {:?}", h, base_bits, other),
+                        None,
+                        json!({"height": h, "time": time, "bits": format!("{:08x}", bits), "last_rows": rows.iter().rev().take(12).collect::<Vec<_>>()}),
+                    );
+                    ok = false;
+                    break;
+                }
+            }
+            let _ = world::ingest_stable();
+            rows.push((time, bits));
+            tip_hash = gen::hash_of(&b);
+        }
+        if !ok {
+            continue;
+        }
+        ctx.cov.count("c11_boundary_chains_built");
+        // probing phase
+        let mut pending: Vec<bitcoin::Block> = vec![]; // announced, not yet delivered (oldest first)
+        let steps = rng.range(6, 14);
+        for _ in 0..steps {
+            let height = rows.len() as u32; // height of the candidate
+            let (ptime, pbits) = rows[rows.len() - 1];
+            // deliver the oldest pending block now and then
+            if !pending.is_empty() && rng.chance(1, 4) {
+                let b = pending.remove(0);
+                match world::insert_block(&b, None) {
+                    world::Out::Ok(Ok(())) => ctx.cov.count("c11_boundary_pending_blocks_delivered"),
+                    other => {
+                        ctx.violation(
+                            format!("the block of an accepted announced header was refused at height {}: {:?}", height - 1 - pending.len() as u32, other),
+                            None,
+                            json!({"pending_after": pending.len()}),
+                        );
+                        ok = false;
+                        break;
+                    }
+                }
+                let _ = world::ingest_stable();
+                continue;
+            }
+            let as_header = !pending.is_empty() || rng.chance(2, 3);
+            // candidates: (time, bits)
+            let mut cands: Vec<(u32, u32)> = vec![];
+            for gap in [rng.range(1, 1200) as u32, 1200, 1201, 1201 + rng.range(1, 3000) as u32] {
+                let time = ptime + gap;
+                let need = refhdr::next_work_required(net, &Hist2 { lo: 0, rows: &rows }, time);
+                for bits in [need, limit, base_bits, pbits] {
+                    if !cands.contains(&(time, bits)) {
+                        cands.push((time, bits));
+                    }
+                }
+            }
+            // refused candidates leave no trace, so all of them are tried first
+            let mut accepted_choice: Vec<(bitcoin::Block, u32, u32)> = vec![];
+            for (time, bits) in cands {
+                uniq += 1;
+                let cb = gen::coinbase_tx(height, uniq, vec![(50, vec![0x51])]);
+                let b = gen::make_block_bits(bits, tip_hash, time, vec![cb], true);
+                let want = refhdr::header_verdict(net, &Hist2 { lo: 0, rows: &rows }, time, bits, &hash_le(&b.header), now);
+                if want == Verdict::Accept {
+                    accepted_choice.push((b, time, bits));
+                    continue;
+                }
+                let got = offer(&b, as_header);
+                ctx.cov.count(if as_header { "c11_boundary_headers_offered" } else { "c11_boundary_blocks_offered" });
+                ctx.cov.eval(Some(fp_str(&format!("c11b|{}|{}|{}|{:08x}|{}|rej", height, pending.len(), as_header, bits, time - ptime > 1200))));
+                match got {
+                    Err(m) => {
+                        ctx.violation(format!("offering a header at height {} trapped: {}", height, m), None, json!({}));
+                        ok = false;
+                    }
+                    Ok(true) => {
+                        ctx.violation(
+                            format!(
+                                "{} at height {} ({} announced headers pending below it) that violates the header rules was accepted: bits {:08x}, {} s after its parent; the rule requires {:08x}",
+                                if as_header { "an announced header" } else { "a block" }, height, pending.len(), bits, time - ptime,
+                                refhdr::next_work_required(net, &Hist2 { lo: 0, rows: &rows }, time)
+                            ),
+                            None,
+                            json!({"height": height, "pending": pending.len(), "base_bits": format!("{:08x}", base_bits), "last_rows": rows.iter().rev().take(12).collect::<Vec<_>>()}),
+                        );
+                        ok = false;
+                    }
+                    Ok(false) => {}
+                }
+                if !ok {
+                    break;
+                }
+            }
+            if !ok || accepted_choice.is_empty() {
+                break;
+            }
+            let idx = rng.usize_below(accepted_choice.len());
+            let (b, time, bits) = accepted_choice.swap_remove(idx);
+            let got = offer(&b, as_header);
+            ctx.cov.count(if as_header { "c11_boundary_headers_offered" } else { "c11_boundary_blocks_offered" });
+            ctx.cov.eval(Some(fp_str(&format!("c11b|{}|{}|{}|{:08x}|{}|acc", height, pending.len(), as_header, bits, time - ptime > 1200))));
+            if height % 2016 == 0 {
+                ctx.cov.count(&format!("c11_boundary_at_2016_with_{}_pending", pending.len()));
+            }
+            match got {
+                Ok(true) => {}
+                other => {
+                    ctx.violation(
+                        format!(
+                            "{} at height {} ({} announced headers pending below it) that satisfies every header rule was refused: bits {:08x}, {} s after its parent ({:?})",
+                            if as_header { "an announced header" } else { "a block" }, height, pending.len(), bits, time - ptime, other
+                        ),
+                        None,
+                        json!({"height": height, "pending": pending.len(), "base_bits": format!("{:08x}", base_bits), "last_rows": rows.iter().rev().take(12).collect::<Vec<_>>()}),
+                    );
+                    break;
+                }
+            }
+            rows.push((time, bits));
+            tip_hash = gen::hash_of(&b);
+            if as_header {
+                pending.push(b);
+            } else {
+                let _ = world::ingest_stable();
+            }
+        }
+        if ctx.cov.samples.len() < 3 {
+            ctx.cov.sample(json!({"lane": "boundary", "base_bits": format!("{:08x}", base_bits), "bulk_height": stop, "final_height": rows.len() - 1, "pending_at_end": pending.len()}));
+        }
+    }
+}
+
+/// Offers a block (insert path) or only its header (announced-header path); Ok(true) = it is now
+/// part of the tree / of the stored announced headers.
+fn offer(b: &bitcoin::Block, as_header: bool) -> Result<bool, String> {
+    if as_header {
+        let blob = world::header_blob(gen::header_bytes(&b.header));
+        let hash = gen::hash_of(b);
+        match world::guarded(|| ic_btc_canister::with_state_mut(|s| ic_btc_canister::state::insert_next_block_headers(s, &[blob]))) {
+            world::Out::Trap(m) => Err(m),
+            world::Out::Ok(()) => Ok(world::bookkeeping().next_by_hash.iter().any(|(h, _, _)| h.to_vec() == hash.to_vec())),
+        }
+    } else {
+        match world::insert_block(b, None) {
+            world::Out::Trap(m) => Err(m),
+            world::Out::Ok(r) => Ok(r.is_ok()),
+        }
+    }
+}
